@@ -1,6 +1,8 @@
 package checks
 
 import (
+	"fmt"
+
 	vexec "vp/exec"
 	"vp/run"
 	"vp/sym"
@@ -119,6 +121,9 @@ func fileModel(x *vexec.Exec, w *run.World) {
 		eof := x.Load(x.GlobalPtr(eofG)).(*vexec.IfaceV)
 		err := &vexec.IfaceV{IsNil: c.Not(atEnd), Typ: eof.Typ, V: eof.V}
 		pos = c.Ite(g, end, pos)
+		if x.Trace {
+			fmt.Printf("      ReadSlice: g=%v atEnd=%v(%d) pos'=%v k0=%x k1=%x\n", g, atEnd, atEnd.C, pos, pos.K0, pos.K1)
+		}
 		return &vexec.TupleV{E: []vexec.Val{sl, err}}
 	})
 	x.Stub("(*os.File).ReadAt", func(x *vexec.Exec, a []vexec.Val, g *sym.Term) vexec.Val {
